@@ -89,9 +89,14 @@ def run_history(acc: Acc, r: random.Random, workdir: str, hid: int, n_steps: int
 				if os.path.exists(path):
 					with open(path, 'rb') as f:
 						text = f.read().decode('utf-8')
-					which = r.choice(['app', 'transpiler'])
+					which = r.choice(['app', 'transpiler', 'app-patch-level', 'transpiler-patch-level'])
 					if which == 'app':
 						text = text.replace('{"version":"1.0.0","module":{', '{"version":"0.9.9","module":{', 1)
+					elif which == 'app-patch-level':
+						# recorded by a release that differs in the last component only
+						text = re.sub(r'^(// @tranp.meta: \{"version":"\d+\.\d+\.)\d+"', r'\g<1>7"', text, count=1)
+					elif which == 'transpiler-patch-level':
+						text = re.sub(r'("transpiler":\{"version":"\d+\.\d+\.)\d+"', r'\g<1>9"', text, count=1)
 					else:
 						text = re.sub(r'"transpiler":\{"version":"[^"]+"', '"transpiler":{"version":"0.0.1"', text, count=1)
 					with open(path, 'wb') as f:
@@ -214,6 +219,8 @@ def path_mapping(acc: Acc, r: random.Random, n: int) -> None:
 		# the text of a rule's prefix occurring again deeper in the path (src/core/src/vec.py beside src/core/vec.py)
 		for d in dirs:
 			base_dirs += [f'{d}/{d}', f'{d}/core/{d}', f'{d}/core', f'core/{d}']
+			# sibling directories whose name continues the rule's directory name (src/ beside srcgen/): 'srcgen/m' and 'src/gen/m' are two modules
+			base_dirs += [f'{d}/{e[len(d):].lstrip("/")}' for e in list(base_dirs) if e.startswith(d) and e != d and e[len(d):].strip('/')]
 		for d in dict.fromkeys(base_dirs):
 			for fn in ['m.h', 'n.h', 'sub.h']:
 				files.append(f'{d}/{fn}' if d else fn)
@@ -334,6 +341,47 @@ def relocation(acc: Acc, workdir: str, scenario: str) -> None:
 			return
 
 
+def aged_headers(acc: Acc, workdir: str) -> None:
+	"""Outputs recorded by another release (application or transpiler version differing in the first or only in the last component):
+	each of them is regenerated by a plain run."""
+	from rogw.tranp.data.meta.header import MetaHeader
+	h = History(random.Random(7), 'chain', workdir, 'aged')
+	p, _ = h.run(False)
+	if cli.failed(p):
+		acc.inconc('aged-headers project: initial run failed', (p.stdout + p.stderr)[-300:])
+		return
+	edits = {
+		'l': (r'^(// @tranp.meta: \{"version":"\d+\.\d+\.)\d+"', r'\g<1>7"', 'application version, last component'),
+		'm': (r'("transpiler":\{"version":"\d+\.\d+\.)\d+"', r'\g<1>9"', 'transpiler version, last component'),
+		'r': (r'^(// @tranp.meta: \{"version":")\d+', r'\g<1>0', 'application version, first component'),
+		'u': (r'("transpiler":\{"version":")\d+', r'\g<1>7', 'transpiler version, first component'),
+	}
+	for k, (pat, rep, what) in edits.items():
+		path = h.output_path(k)
+		with open(path, 'rb') as f:
+			text = f.read().decode('utf-8')
+		aged = re.sub(pat, rep, text, count=1)
+		if aged == text:
+			acc.inconc('aged-headers: header line has an unexpected form', text.split('\n')[0][:200])
+			return
+		with open(path, 'wb') as f:
+			f.write(aged.encode('utf-8'))
+	p, _ = h.run(False)
+	acc.see('nonforced_runs_judged', 'aged-headers')
+	acc.case('aged-headers', {'edits': {k: v[2] for k, v in edits.items()}}, True)
+	case = {'kind': 'aged-headers'}
+	if cli.failed(p):
+		acc.violation('nonforced-run-fails', f'aged headers: {(p.stdout + p.stderr)[-400:]}', case)
+		return
+	outs = h.outputs()
+	for k, (_, _, what) in edits.items():
+		got = MetaHeader.try_from_content(outs[h.output_rel(k)])
+		acc.see('regeneration', 'required')
+		if got is None or got.to_json() != header_expected(h.root, h.hp.names[k]):
+			acc.violation('not-regenerated', f'{h.output_rel(k)} was recorded by another release ({what}) and keeps that header after a plain run: {got.to_json() if got else None}', case)
+			return
+
+
 def shipped_example(acc: Acc, workdir: str) -> None:
 	"""The example project shipped with tranp (example/json.py; its output example/json.h is committed in the tranp tree) copied into a
 	directory of its own: a first plain run, and a plain run after the output was deleted, have to write example/json.h there."""
@@ -388,6 +436,8 @@ def shard(ctx: Ctx, acc: Acc) -> None:
 				relocation(acc, workdir, 'swap-rules')
 			if ctx.shard == 4 % ctx.nshards:
 				shipped_example(acc, workdir)
+			if ctx.shard == 5 % ctx.nshards:
+				aged_headers(acc, workdir)
 			if ctx.shard == 1 % ctx.nshards:
 				path_mapping(acc, ctx.rng('paths'), 300 if ctx.quick else 3000)
 		except Exception as e:  # noqa
@@ -420,6 +470,8 @@ def replay(ctx: Ctx, case: dict, acc: Acc) -> None:
 			relocation(acc, workdir, case['scenario'])
 		elif case.get('kind') == 'shipped-example':
 			shipped_example(acc, workdir)
+		elif case.get('kind') == 'aged-headers':
+			aged_headers(acc, workdir)
 		else:
 			run_history(acc, ctx.rng('history', case.get('seed', 0)), workdir, case.get('seed', 0), 8)
 	finally:
